@@ -147,6 +147,8 @@ def handle (op : String) (f : List String) : Verdict :=
     match ths.toNat?, T.undump refS, parseItems itemsS, ((tookS.splitOn ";").headD "").toInt?,
           parseNatList (((tookS.splitOn ";").drop 1).headD "") with
     | some threads, some ref, some items, some took, some order =>
+      -- goroutines the call left behind (-1: not observed)
+      let left : Int := ((((tookS.splitOn ";").drop 2).headD "").toInt?).getD (-1)
       let cancelled := flags.contains 'c'
       let run : Run := ⟨kind, threads, ref, items, outcome, records, outcome1, records1, race, cancelled⟩
       let n := items.length
@@ -162,11 +164,13 @@ def handle (op : String) (f : List String) : Verdict :=
         tagIf (nbad == 0) "clean" ++
         tagIf (run.badClasses.contains "item") "bad-item" ++
         tagIf (run.badClasses.contains "taxa") "bad-taxa" ++
+        tagIf (run.badClasses.contains "dup") "bad-duplicate-tip-names" ++
         tagIf (nbad > 0 ∧ badPos == 0) "bad-first" ++
         tagIf (nbad > 0 ∧ badPos + 1 == n) "bad-last" ++
         tagIf (nbad > 0 ∧ 0 < badPos ∧ badPos + 1 < n) "bad-middle" ++
         tagIf ref.rooted "rooted-ref" ++ tagIf tips "tips" ++ tagIf binary "binary" ++
         tagIf (took ≥ 2) "observed-2-workers" ++ tagIf cancelled "cancelled" ++ tagIf (flags.contains 'r') "rf" ++ tagIf (flags.contains 'R') "race-build" ++
+        tagIf (left > 0) "goroutines-left-behind" ++ tagIf (left == 0) "no-goroutine-left-behind" ++
         tagIf (run.perItem && order != List.range n) "records-out-of-stream-order" ++
         tagIf (!ref.noSingle) "single-child-nodes" ++ tagIf (ref.kids.length == 1) "root-is-tip" ++
         tagIf (ref.edges.any (·.len == NIL)) "absent-lengths" ++ tagIf (ref.edges.any (·.len == 0)) "zero-lengths" ++
@@ -178,10 +182,21 @@ def handle (op : String) (f : List String) : Verdict :=
       -- the glue of the support commands: the log echoes the thread count the command was given,
       -- whatever the form of the option (-t N, --threads N, --threads=N, before the sub-command, omitted = 1)
       let cliLogOK := !((kind == "clifbp" || kind == "clitbe") && outcome == "ok") || took == (threads : Int)
+      -- the glue around the pools: a thread count below 1 means one worker (fbp.go:17, tbe.go:151, and since
+      -- 3282a54 tree.Compare / tree.CompareWeighted)
+      let threads := if threads < 1 then 1 else threads
       if !(runOK run) then
         ⟨.oracle, tags, (if tbeLogFloatOrder run then "class=TbeMovedTaxaFloatOrder " else "") ++ runWhy run⟩
       else if !cliLogOK then ⟨.tie, tags, "the command logged CPUs : " ++ toString took ++ " for " ++ toString threads ++ " threads"⟩
       else if cancelled then ⟨.pass, tags, ""⟩
+      -- the terminal states of the LTS against the goroutines really left behind: a maximal run of a
+      -- clean pool leaves the producer blocked only when every worker stopped on an erroneous tree
+      -- (`pool_normal_form_general`): never on a stream without erroneous tree, never for the pools that
+      -- record the error and go on; with one worker that stops, exactly when trees remain after the bad one
+      else if left ≥ 0 && !run.cli && (nbad == 0 || run.perItem) && left != 0 then
+        ⟨.tie, tags, toString left ++ " goroutine(s) left behind by a run in which the LTS leaves none"⟩
+      else if left ≥ 0 && (kind == "fbp" && threads == 1 || kind == "tbe") && nbad > 0 && ((left > 0) != (badPos + 1 < n)) then
+        ⟨.tie, tags, toString left ++ " goroutine(s) left behind; the LTS leaves the feeder blocked exactly when trees remain after the erroneous one"⟩
       else if run.perItem && !(order.length == n && orderOK threads order) then
         ⟨.tie, tags, "the records arrived in an order the LTS excludes for " ++ toString threads ++ " workers: " ++ toString order⟩
       else
@@ -192,8 +207,6 @@ def handle (op : String) (f : List String) : Verdict :=
       -- (0: rendezvous), the commands read through ReadMultiTrees (buffer of 10)
       let cap : Nat := if run.cli then 10 else 0
       let stops : (Nat × Item) → Bool := fun x => x.2.isBad ref
-      -- the glue around the pools: FBP and TBE start at least one worker (fbp.go:17, tbe.go:151)
-      let threads := if (kind == "fbp" || kind == "tbe" || kind == "clifbp" || kind == "clitbe") && threads < 1 then 1 else threads
       let indexed := (List.range n).zip items
       if kind == "compare" then
         let fin := runToEnd (extractedShape kind) (fun x : Nat × Item => compareItem ref tips binary x.1 x.2) stops threads cap indexed sched
@@ -300,6 +313,27 @@ def handle (op : String) (f : List String) : Verdict :=
       else if records != expect then ⟨.oracle, tags, "content of the hash map is not what was put"⟩
       else ⟨.pass, tags, ""⟩
     | _, _ => bad "C11.hm fields"
+  | "selftest", _ =>
+    -- the driver's comparison fed with deliberately broken shapes (a table with such rows does not pass
+    -- the `decide`s of Proofs/C11.lean, but the driver is built apart and runs all the same): the model run
+    -- of a leaky shape must end NOT closed, the run of a racy shape must be able to deliver a wrong record —
+    -- i.e. the branches "model run does not end closed" / "model records …" above are live
+    let leaky : Shape := ⟨true, [false], true, true⟩
+    let racy : Shape := ⟨true, [], false, true⟩
+    let noClose : Shape := ⟨true, [], true, false⟩
+    let r1 := runToEnd leaky (fun n : Nat => n) (fun n => n == 2) 1 0 [1, 2, 3] (mkSched 7 1 20)
+    let r2 := runToEnd racy (fun n : Nat => n) (fun _ => false) 2 1 [1, 2] [(3, 0), (0, 0), (3, 0), (1, 0), (0, 2)]
+    let r3 := runToEnd noClose (fun n : Nat => n) (fun _ => false) 2 0 [1, 2] (mkSched 3 2 20)
+    if r1.closed then ⟨.tie, ["selftest"], "a shape with an exit that skips wg.Done ends closed in the driver"⟩
+    else if r2.out.mergeSort (fun a b => decide (a ≤ b)) == [1, 2] then ⟨.tie, ["selftest"], "a shape with an unsynchronised write cannot deliver a wrong record in the driver"⟩
+    else if r3.closed then ⟨.tie, ["selftest"], "a shape whose producer skips close ends closed in the driver"⟩
+    else ⟨.pass, ["selftest"], ""⟩
+  | "table", [status, leaksS, unsyncS, outsideS] =>
+    -- (4th field: rows of the pools OUTSIDE the four named computations — compute edgetrees, compute
+    -- roccurve —: shown, tagged, not judged by this property)
+    match handle "table" [status, leaksS, unsyncS], parseStrList outsideS with
+    | v, some outside => { v with tags := v.tags ++ tagIf (!outside.isEmpty) ("rows-outside-the-named-pools=" ++ toString outside.length) }
+    | v, none => v
   | "table", [status, leaksS, unsyncS] =>
     -- the regenerated table seen from the runner: rows that break the hypotheses of the LTS theorems.
     -- Not a property violation by itself (no failing run): the tie between the model shape and the code.
